@@ -26,11 +26,11 @@ def gen_cfg(r, tier, estimator="keyed"):
            "evals": r.randint(1, 5 if tier == "quick" else 8),
            "max_leaves": 60 if tier == "quick" else 150, "max_points": 2500 if tier == "quick" else 6000,
            "clock_jumps": r.random() < 0.3, "recalc": r.choice([None, None, None, 1, 2, 3, 5])}
-    if r.random() < 0.12:
-        # long single-dimension-splitting histories with the automatic decision on a smooth coordinate-symmetric integrand:
+    if r.random() < 0.18:
+        # long single-dimension-splitting histories (mostly with the automatic decision) on a smooth coordinate-symmetric integrand:
         # equal twin errors make a leaf split along several dimensions at once, after initial areas have been extended
-        cfg.update(dim=2, a=[0.0, 0.0], b=[1.0, 1.0], lmin=1, lmax=2, version=r.choice([0, 0, 1, 2]), single_dim=True, automatic=True,
-                   symmetric=True, nnoise=1, jump=False, boundary=True, evals=r.randint(6, 12 if tier == "quick" else 18),
+        cfg.update(dim=2, a=[0.0, 0.0], b=[1.0, 1.0], lmin=1, lmax=2, version=r.choice([0, 0, 0, 1, 2]), single_dim=True, automatic=r.random() < 0.65,
+                   nref=r.choice([1, 1, 2]), symmetric=True, nnoise=1, jump=False, boundary=True, evals=r.randint(6, 12 if tier == "quick" else 18),
                    estimator=r.choice(["real", "keyed"]), p_zero=r.choice([0.0, 0.2]), margin=r.choice([0.5, 0.9]), recalc=None,
                    max_leaves=400, max_points=4000)
     return cfg
